@@ -2813,6 +2813,42 @@ Section Scan.
       destruct (rounds_progress w0 HI HL HT Hd Hf Hfin Hpos B) as (IB & _ & NB & D & [[F R]|(F & TB & M)]); [auto|].
       exfalso. destruct (Hsome _ ltac:(apply IB) TB) as (j & Hj & Ha). fold (N (rounds B w0)) in Hj. rewrite NB in Hj. fold (aw (rounds B w0) j) in Ha. specialize (M j Hj Ha). specialize (Hpos B j Hj TB Ha). specialize (HB j). lia.
     Qed.
+    (* LiveI is an invariant of every history (no TS needed: a poll that finds no order unwinds, which changes neither scripts nor handles) *)
+    Lemma poll_LiveI w pid np : LiveI w -> Q (cs w) -> LiveI (poll w pid np).
+    Proof.
+      intros HL HQ. unfold poll.
+      assert (Hmf : forall w1 o, LiveI w1 -> LiveI (mark_final w1 o)).
+      { intros w1 o H. unfold mark_final. destruct (final o); [apply (LiveI_frame w1); auto|exact H]. }
+      destruct (pre_exit (cs w)) as [o|]; [apply Hmf; apply (LiveI_frame w); auto|].
+      set (w0 := begin_poll w pid np).
+      assert (HL0 : LiveI w0) by (apply (LiveI_frame w); auto).
+      destruct (pre_any (cs w0) && negb (any_ready w0)); [apply (LiveI_frame w0); auto|].
+      destruct (order (cs w0)) as [[is s1]|] eqn:Eo; [|unfold unwind; apply (LiveI_frame w0); auto].
+      assert (HL1 : LiveI (set_cs w0 s1)) by (apply LiveI_cs; [apply (order_slots _ _ _ Eo)|exact HL0]).
+      assert (HQ1 : Q (cs (set_cs w0 s1))) by (cbn; eapply Q_order; eauto).
+      assert (Hin : forall i, In i is -> i < N (set_cs w0 s1)).
+      { intros i Hi. unfold N; cbn. rewrite (order_slots (cs w0) is s1 Eo). apply (order_bound (cs w0) is s1 HQ Eo i Hi). }
+      destruct (scan_live is (set_cs w0 s1) pid HL1 HQ1 Hin) as [(S1 & S2 & _ & _ & _ & _ & _ & _ & S5) _].
+      destruct (scan (set_cs w0 s1) is pid) as [w1|w1|w1 o|w1]; cbn [vworld] in *.
+      - pose proof (finish_slots (cs w1)) as Fs. destruct (finish (cs w1)) as [s2 [x|]]; cbn [fst] in Fs.
+        + apply Hmf. apply (LiveI_frame (set_cs w1 s2)); auto. apply LiveI_cs; auto.
+        + apply (LiveI_frame (set_cs w1 s2)); auto. apply LiveI_cs; auto.
+      - apply (LiveI_frame w1); auto.
+      - apply Hmf. apply (LiveI_frame (set_cs w1 (after_stop (cs w1)))); auto. apply LiveI_cs; auto. apply after_slots.
+      - exfalso. exact (S5 w1 eq_refl).
+    Qed.
+    Lemma LiveI_step w o : Inv w -> LiveI w -> LiveI (step_op w o).
+    Proof.
+      intros HI HL. destruct o as [| |c k| |m a sc]; cbn [step_op].
+      - destruct (finished w || dropped w); auto. apply poll_LiveI; auto. apply HI.
+      - destruct (finished w || dropped w); auto. apply poll_LiveI; auto. apply HI.
+      - destruct (fire_handle_live (emit w [EO]) c k) as (A & B & C & D & E & _). apply (LiveI_frame w); auto.
+      - destruct (dropped w); apply (LiveI_frame w); auto.
+      - destruct (dropped w); auto. rewrite no_mutate. exact HL.
+    Qed.
+    Lemma LiveI_run ops : forall w, Inv w -> LiveI w -> LiveI (run_ops w ops).
+    Proof. induction ops as [|o r IH]; intros w HI HL; cbn; auto. apply IH; [apply Inv_step; exact HI|apply LiveI_step; auto]. Qed.
+
     (* ---- streams as well: the next result (an item, or the end) arrives within B rounds ---- *)
     Lemma poll_result_ext w pid np : sel w = true -> dropped w = false -> let w' := poll w pid np in
       g_retpend w' = false -> dropped w' = false -> exists u o, tr w' = tr w ++ u ++ [EEndR o].
